@@ -40,7 +40,11 @@ class LInputScope(InputScope):
     TX_CLS = LTransaction
     TXOUT_CLS = LTransactionOutput
 
-    def __init__(self, unknown: dict = None, **kwargs):
+    def __init__(self, unknown: dict = None, vin=None, **kwargs):
+        # parts of the input of the global transaction (version 0)
+        # that have no field in the scope
+        self.is_pegin = vin.is_pegin if vin is not None else False
+        self._tx_issuance = vin.asset_issuance if vin is not None else None
         # liquid-specific fields:
         self.value = None
         self.value_blinding_factor = None
@@ -62,7 +66,7 @@ class LInputScope(InputScope):
         # reissuance stuff
         self.issue_nonce = None
         self.issue_entropy = None
-        super().__init__(unknown, **kwargs)
+        super().__init__(unknown, vin=vin, **kwargs)
 
     def clear_metadata(self, *args, **kwargs):
         """Removes metadata like derivations, utxos etc except final or partial sigs"""
@@ -131,6 +135,8 @@ class LInputScope(InputScope):
                 self.issue_commitment or self.issue_value,
                 self.token_commitment or self.token_value,
             )
+        # issuance of the global transaction (version 0)
+        return self._tx_issuance
 
     @property
     def vin(self):
@@ -138,6 +144,7 @@ class LInputScope(InputScope):
             self.txid,
             self.vout,
             sequence=(self.sequence if self.sequence is not None else 0xFFFFFFFF),
+            is_pegin=self.is_pegin,
             asset_issuance=self.asset_issuance,
         )
 
@@ -147,6 +154,7 @@ class LInputScope(InputScope):
             self.txid,
             self.vout,
             sequence=(self.sequence if self.sequence is not None else 0xFFFFFFFF),
+            is_pegin=self.is_pegin,
             asset_issuance=self.asset_issuance,
             witness=TxInWitness(self.issue_rangeproof, self.token_rangeproof),
         )
@@ -273,8 +281,11 @@ class LOutputScope(OutputScope):
         self.blinder_index = None
         self.value_proof = None
         self.asset_proof = None
+        # nonce of the output of the global transaction (version 0)
+        self._tx_ecdh_pubkey = None
         if vout:
             self.asset = vout.asset
+            self._tx_ecdh_pubkey = vout.ecdh_pubkey
         self._verified = False
         # super calls parse_unknown() at the end
         super().__init__(unknown, vout=vout, **kwargs)
@@ -350,11 +361,14 @@ class LOutputScope(OutputScope):
 
     @property
     def vout(self):
+        ecdh_pubkey = None if self.asset else self.ecdh_pubkey
+        if ecdh_pubkey is None:
+            ecdh_pubkey = self._tx_ecdh_pubkey
         return LTransactionOutput(
             self.asset or self.asset_commitment,
             self.value if self.value is not None else self.value_commitment,
             self.script_pubkey,
-            None if self.asset else self.ecdh_pubkey,
+            ecdh_pubkey,
         )
 
     @property
@@ -363,7 +377,7 @@ class LOutputScope(OutputScope):
             self.asset_commitment or self.asset,
             self.value_commitment or self.value,
             self.script_pubkey,
-            self.ecdh_pubkey,
+            self.ecdh_pubkey or self._tx_ecdh_pubkey,
             None
             if not self.surjection_proof
             else TxOutWitness(
